@@ -44,7 +44,7 @@ var (
 )
 
 type c08Case struct {
-	Scenario string            `json:"scenario"` // S1 | S2
+	Scenario string            `json:"scenario"` // S1 | S2 | S3
 	Victim   int               `json:"victim"`
 	Crash    []shmx.CrashPoint `json:"crash"`
 }
@@ -59,6 +59,12 @@ func c08Spec(cs c08Case) shmx.Spec {
 		st.Evals = map[int]int{cs.Victim: shmx.EvalWrong}
 		st.Accuse = cs.Victim
 		spec.Byz = map[int]shmx.Strategy{2: st}
+	}
+	if cs.Scenario == "S3" {
+		// all honest; the third keyper is one block slower at the start of the
+		// dealing phase (its commitment and evaluations land one block after the
+		// others', still inside the phase)
+		spec.Schedule = shmx.Schedule{Delay: map[int][3]int{2: {1, 0, 0}}}
 	}
 	return spec
 }
@@ -502,6 +508,15 @@ func c08Judge(cs c08Case, run, twin *c08Run) {
 		}
 		return sig
 	}
+	// agreement with the other keypers (C07's oracle) is judged first: it is the
+	// gravest consequence
+	if ver := w.CheckAgreement(1); ver.Signature != "" {
+		if m.Vulnerable != "" {
+			failf("C08/restart-during-dealing-honest-keypers-disagree-on-eon-key", "%s\n%s", ver.Message, m.Vulnerable)
+		} else {
+			failf(strings.Replace(ver.Signature, "C07/", "C08/agreement/", 1), "%s", ver.Message)
+		}
+	}
 	if m.Sig != "" {
 		failf(m.Sig, "%s", m.Msg)
 	}
@@ -629,10 +644,6 @@ func c08Judge(cs c08Case, run, twin *c08Run) {
 			failf(attribute("C08/messages-differ-from-twin"), "shuttermint accepted from the victim {%s}, in the crash-free twin {%s}\n%s", a, b, m.Vulnerable)
 		}
 	}
-	ver := w.CheckAgreement(1)
-	if ver.Signature != "" {
-		failf(strings.Replace(ver.Signature, "C07/", "C08/agreement/", 1), "%s", ver.Message)
-	}
 	var cl []string
 	for _, i := range w.Honest {
 		cl = append(cl, fmt.Sprintf("%d:%s", i, run.Success[i]))
@@ -687,8 +698,8 @@ func firstPoints(twin *c08Run, reduce bool) []shmx.CrashPoint {
 func c08() *report.Check {
 	return &report.Check{
 		Level: "fault_enumeration",
-		Rule: "complete key generations (n=3, t=2) through fakeshm with real keypers on minipg; S1 all honest, S2 a scripted third keyper deals a wrong evaluation to the victim and accuses it falsely (the victim accuses and apologises). A crash-free twin numbers the victim's database round trips (N) and shuttermint RPC calls (M). " +
-			"quick: victim 0, both scenarios, every single crash point: every round trip and every RPC call x {before it is sent, applied but reply lost}. thorough: both victims, both scenarios, all single points, and every pair (first point: every autocommit statement and RPC call in both modes, per transaction before BEGIN / before COMMIT / after COMMIT; second point: each of the next 60 round trips and 6 RPC calls after the restart, both modes). " +
+		Rule: "complete key generations (n=3, t=2) through fakeshm with real keypers on minipg; S1 all honest, S2 a scripted third keyper deals a wrong evaluation to the victim and accuses it falsely (the victim accuses and apologises), S3 all honest with the third keyper one block slower in the dealing phase. A crash-free twin numbers the victim's database round trips (N) and shuttermint RPC calls (M). " +
+			"quick: victim 0, all scenarios, every single crash point: every round trip and every RPC call x {before it is sent, applied but reply lost}. thorough: both victims, all scenarios, all single points, and every pair (first point: every autocommit statement and RPC call in both modes, per transaction before BEGIN / before COMMIT / after COMMIT; second point: each of the next 60 round trips and 6 RPC calls after the restart, both modes). " +
 			"A crash drops the open transaction and every in-memory object; the keyper is rebuilt like KeyperCore.Start and runs on to a fixed horizon. Oracle at every commit point of the victim's database: current_block advances by one, block-driven tables change only together with current_block, queued/sent commitments and evaluations equal the stored polynomial; at the horizon: every block once, one commitment per eon, sent evaluations verify, outbox empty and delivered in id order, same outcome / accepted message kinds / per-block database structure as the twin, C07's agreement oracle.",
 		Assumptions: []string{
 			"a restart completes within one block interval: the restarted keyper runs its loop again while the same block is open (so that a crash changes state, not timing)",
@@ -703,9 +714,9 @@ func c08() *report.Check {
 				scenario string
 				victim   int
 			}
-			jobs := []job{{"S1", 0}, {"S2", 0}}
+			jobs := []job{{"S1", 0}, {"S2", 0}, {"S3", 0}}
 			if c.Thorough {
-				jobs = append(jobs, job{"S1", 1}, job{"S2", 1})
+				jobs = append(jobs, job{"S1", 1}, job{"S2", 1}, job{"S3", 1})
 			}
 			unit := 0
 			runCase := func(cs c08Case, twin *c08Run) {
